@@ -270,7 +270,10 @@ def run_impl(lines, flavour="plain", fork=False, shards=1, limit=10):
             class P: returncode = "timeout"
             p = P()
         try:
-            out = open(outp, errors="replace").read().split("\n")
+            raw = open(outp, errors="replace").read()
+            if raw and not raw.endswith("\n"):
+                raw = raw[:raw.rfind("\n") + 1]       # the harness died while writing: drop the partial line
+            out = raw.split("\n")
         finally:
             try:
                 os.unlink(outp)
